@@ -188,6 +188,25 @@ def check(case, ctx):
                     got2 = [x if isinstance(x, str) else x.serialize() for x in second] if st2 == 'ok' else second
                     if got2 != keep:
                         ctx.fail('result-after-editing-previous-result', keep, got2, call=[name, s, None, how])
+    # the same residues and modified positions with float-typed shifts first, then with int-typed shifts (either order, one
+    # process): each expansion keeps the spelling of its own peptide
+    if not case['slots']:
+        twins = [('[Acetyl]-' + ''.join(c + ('[57.0]' if i == 0 else '[1.0]' if i == n - 1 else '') for i, c in enumerate(P['seq'])),
+                  '<13C>' + ''.join(c + ('[57]' if i == 0 else '[1]' if i == n - 1 else '') for i, c in enumerate(P['seq'])) + '/2')]
+        for ta, tb in twins + [(b_, a_) for a_, b_ in twins]:
+            for name, it, count in ops:
+                lib.call(getattr(p, name), ta, 1)
+                r = lib.call(getattr(p, name), tb, 1)
+                ctx.evals += 2
+                wantk = sorted(set(x.serialize() for x in p.parse(tb).split()))
+                gotk = sorted(set(r[1])) if r[0] == 'ok' else r[1]
+                pre, suf = p.parse(tb).serialize_start(), p.parse(tb).serialize_end()
+                wantk = sorted(set(pre + (c + ('[57.0]' if (i == 0 and '57.0' in tb) else '[57]' if i == 0 else
+                                               '[1.0]' if (i == n - 1 and '1.0' in tb) else '[1]' if i == n - 1 else '')) + suf
+                                   for i, c in enumerate(P['seq']))) if n > 1 else None
+                if wantk is not None and gotk != wantk:
+                    ctx.fail('int-float-twin-history', wantk, gotk, call=[name, tb, 1], asked_before=ta)
+                    break
     # one parsed object used for all four expansions in turn (and twice over): each result equals the result for the text,
     # and the object still writes the same text afterwards
     obj = p.parse(s)
